@@ -69,6 +69,13 @@ def AreaFeature.apply {G : Type} [RandGen G R] (f : AreaFeature R) (ctx : Ctx R)
   | none => return out
   | some (mn, mx) => paintAll f.tag f.models ctx q mn mx 0 pes out
 
+/-- the temperature entry alone (`properties = {{1,0,0}}`, as the water-content models request it): the guards, then the
+temperature models.  No random numbers are involved, so this is a pure function of the running value `old`. -/
+def AreaFeature.applyTemp (f : AreaFeature R) (ctx : Ctx R) (q : Query R) (old : R) : Except Err R := do
+  match ← f.covers ctx q with
+  | none => return old
+  | some (mn, mx) => f.models.temps.foldlM (fun t m => m.get ctx q t mn mx 0) old
+
 structure PlumeFeature (R : Type) where
   name : String
   tag : Nat
@@ -141,5 +148,11 @@ def PlumeFeature.apply {G : Type} [RandGen G R] (f : PlumeFeature R) (ctx : Ctx 
   match ← liftE (f.covers ctx q) with
   | none => return out
   | some rel => paintAll f.tag f.models ctx q f.minDepth f.maxDepth rel pes out
+
+/-- the temperature entry alone, see `AreaFeature.applyTemp` -/
+def PlumeFeature.applyTemp (f : PlumeFeature R) (ctx : Ctx R) (q : Query R) (old : R) : Except Err R := do
+  match ← f.covers ctx q with
+  | none => return old
+  | some rel => f.models.temps.foldlM (fun t m => m.get ctx q t f.minDepth f.maxDepth rel) old
 
 end Gwb
